@@ -14,7 +14,9 @@ Line protocol of the C11 model driver (one JSON array per line, one JSON value b
   answer `{"ok": {"outs": […], "disk": disk|null}}`.
 
 header = `{"format": s|null, "version": [int…]|null, "id": s|null}`;
-disk = `{"header": …, "data": b, "meta": b, "created": b, "updated": b, "content": [[key, val]…]}`.
+disk = `{"header": …, "data": b, "meta": b, "created": b, "updated": b, "content": [[key, val]…]}` (an HDF5
+file), `{"blob": tag, "empty": b}` (a file libhdf5 cannot open), `{"dir": tag}` (a directory), `null` (missing).
+An open event with mode `null` is the open without a mode argument (`openDefault`).
 -/
 namespace Driver.C11
 
@@ -57,17 +59,23 @@ def j2content? (j : Json) : Option Content :=
       | _ => none
   | _ => none
 
-def j2disk? (j : Json) : Option (Option Disk) :=
+def j2disk? (j : Json) : Option Node :=
   match j with
-  | .null => some none
-  | _ => do
+  | .null => some .missing
+  | _ =>
+    match field j "blob", field j "dir" with
+    | .str t, _ => do
+      let e ← j2bool? (field j "empty")
+      pure (.blob t.toList e)
+    | _, .str t => some (.dir t.toList)
+    | _, _ => do
     let h ← j2header? (field j "header")
     let a ← j2bool? (field j "data")
     let b ← j2bool? (field j "meta")
     let c ← j2bool? (field j "created")
     let d ← j2bool? (field j "updated")
     let ct ← j2content? (field j "content")
-    pure (some { header := h, hasData := a, hasMeta := b, hasCreated := c, hasUpdated := d, content := ct })
+    pure (.hdf { header := h, hasData := a, hasMeta := b, hasCreated := c, hasUpdated := d, content := ct })
 
 def header2j (h : Header) : Json :=
   Json.mkObj [("format", os2j h.fmt),
@@ -76,15 +84,18 @@ def header2j (h : Header) : Json :=
                           | some v => Json.arr (v.map (fun (i : Int) => toJson i)).toArray),
               ("id", os2j h.id)]
 
-def disk2j : Option Disk → Json
-  | none => Json.null
-  | some d => Json.mkObj [("header", header2j d.header), ("data", d.hasData), ("meta", d.hasMeta),
+def disk2j : Node → Json
+  | .missing => Json.null
+  | .blob t e => Json.mkObj [("blob", s2j t), ("empty", e)]
+  | .dir t => Json.mkObj [("dir", s2j t)]
+  | .hdf d => Json.mkObj [("header", header2j d.header), ("data", d.hasData), ("meta", d.hasMeta),
       ("created", d.hasCreated), ("updated", d.hasUpdated),
       ("content", Json.arr (d.content.map fun kv => Json.arr #[key2j kv.1, s2j kv.2]).toArray)]
 
 def refusal2j : Refusal → Json
   | .err e => Json.str e.toString
   | .h5ReadOnly => Json.str "H5ReadOnly"
+  | .osError => Json.str "OSError"
 
 def out2j : Out → Json
   | .val v => Json.mkObj [("val", os2j v)]
@@ -104,6 +115,7 @@ def evout2j : EvOut → Json
 def j2ev (w : World) (j : Json) : Except String Ev :=
   match jArr j |>.toList with
   | [Json.str "open", Json.str m, Json.str fid] => .ok (.open m.toList fid.toList)
+  | [Json.str "open", Json.null, Json.str fid] => .ok (.open defaultModeOpen fid.toList)
   | [Json.str "get", k] => match j2key? k with | some k => .ok (.op (.read (.get k))) | none => .error "key"
   | [Json.str "keys", k] => match j2key? k with | some k => .ok (.op (.read (.keys k))) | none => .error "key"
   | [Json.str "header"] => .ok (.op (.read .header))
@@ -164,9 +176,9 @@ def handle (j : Json) : Json :=
     match j2disk? d with
     | none => bad "C11: disk"
     | some d0 =>
-      match runHist { disk := d0, sess := none } evs.toList with
+      match runHist { node := d0, sess := none } evs.toList with
       | .error e => bad ("C11: " ++ e)
-      | .ok (w, outs) => ok (Json.mkObj [("outs", Json.arr outs.toArray), ("disk", disk2j w.disk)])
+      | .ok (w, outs) => ok (Json.mkObj [("outs", Json.arr outs.toArray), ("disk", disk2j w.node)])
   | _ => bad "C11: unknown op"
 
 def main : IO Unit := pureLoop handle
